@@ -196,6 +196,8 @@ def run(repo: Repo, tier: str) -> Report:
            [ast.unparse(a) for a in site.args] == ["self._obj", "template", "labels_daily", "template_out"], f"{[ast.unparse(a) for a in site.args]}",
            "tinterpolate args", line=site.line)
     decl = const_list(site.opts.get("output_dtypes"))
+    from ..rules import nb_layout
+    nb_layout(rep, kernels, ["tinterpolate"], rule="R-LAYOUT")
     rep.ob("R-DTYPE-DECL", AFILE, site.where(), "declared int16 == written int16", decl == ["int16"] and all(sig[-1][0] == "int16" for sig in k.sigs),
            f"output_dtypes = {decl}; signature output {[sig[-1] for sig in k.sigs]}", "tinterpolate output_dtypes", line=site.line)
     rep.floor("C20 obligations", len(rep.obls), 20)
